@@ -776,7 +776,11 @@ class NestedExtensionArray(ExtensionArray):
         # Cheap path for a single chunk
         if self._chunked_array.num_chunks == 1:
             struct_array = cast(pa.StructArray, self._chunked_array.chunk(0))
-            return cast(pa.ListArray, struct_array.field(0)).offsets
+            offsets = cast(pa.ListArray, struct_array.field(0)).offsets
+            # A sliced chunk exposes offsets into the original buffer, re-base them to start with zero
+            if offsets[0].as_py() != 0:
+                offsets = pa.compute.subtract(offsets, offsets[0])
+            return offsets
 
         zero_and_lengths = pa.chunked_array(
             [pa.array([0], type=pa.int32()), pa.array(self.list_lengths, type=pa.int32())]
